@@ -183,7 +183,10 @@ Clauses(S, P, hasPrev, TauSet) ==   \* S = this solve's observation, P = previou
       \* ---------------- C02: the primal instance
       coordsOK == solved /\ Len(S.coords) = np /\ \A i \in 1..np : Len(S.coords[i]) > 0
       dim == IF coordsOK /\ np > 0 THEN Len(S.coords[1]) ELSE 0
-      primRange == solved /\ coordsOK /\ (\A i \in 1..np : \A c \in 1..dim : InRange(S.coords[i][c]))
+      \* (S.toolarge: magnitude sensor of the driver - some sent or held expression evaluates, at the returned instance,
+      \*  through partial sums beyond 1500, e.g. a free variable of the model that the solver left at a huge value: the
+      \*  instance-side clauses are then not computed, as when a coordinate is out of range - 32-bit integers)
+      primRange == solved /\ coordsOK /\ S.toolarge = 0 /\ (\A i \in 1..np : \A c \in 1..dim : InRange(S.coords[i][c]))
                    /\ (\A k \in 1..Len(S.F) : InRange(S.F[k])) /\ (\A k \in 1..Len(S.G) : InRange(S.G[k]))
       ps == PairSeq(np)
       gramOf == [k \in 1..npair |-> DotFix(S.coords[ps[k][1]], S.coords[ps[k][2]])]
